@@ -44,7 +44,7 @@ func resolveTunnelFns(c *Check, p *Program, rule string, a *tunnelAnchors) *tunn
 			}
 			hasDone, hasIn := false, false
 			for _, st := range s.States {
-				if st.Dir == types.RecvOnly && chanField(st.Chan) == a.done {
+				if st.Dir == types.RecvOnly && chanIs(st.Chan, a.done) {
 					hasDone = true
 				}
 				if st.Dir == types.RecvOnly && isInboundCall(st.Chan) {
@@ -293,7 +293,7 @@ func checkC09(c *Check, p *Program) {
 	} else {
 		hasDone := false
 		for _, st := range sigSel.States {
-			if st.Dir == types.RecvOnly && chanField(st.Chan) == a.done {
+			if st.Dir == types.RecvOnly && chanIs(st.Chan, a.done) {
 				hasDone = true
 			}
 		}
